@@ -82,6 +82,213 @@ def ev_token(ev, kind=None):
     raise AssertionError(ev)
 
 
+class Recorder:
+    """records the events handed to wsproto (`WebsocketConnection.send`: the model's output interface) and lets the
+    in-memory peers decode the bytes of the matching SendData commands (the property oracle's observation)"""
+    SIDE = {"client": "c", "server0": "s"}
+
+    def __init__(self, w, deflate):
+        from collections import deque
+        self.w = w
+        self.peers = {"c": Peer(ConnectionType.CLIENT, deflate), "s": Peer(ConnectionType.SERVER, deflate)}
+        self.sendevs = deque()
+        self.peer_seen = {"c": [], "s": []}   # ["m", typ, [payload per frame]] | ["pi"/"po", hex] | ["cl", code, reason]
+        self.partial = {"c": None, "s": None}
+        self.pos = len(w.trace)
+        self.nerr = 0
+        self.hook_idx = 0
+
+    def wrap(self, ws, sd):
+        orig = ws.send
+        def send(event):
+            data = orig(event)
+            self.sendevs.append((sd, event))
+            return data
+        ws.send = send
+
+    def peer_decode(self, sd, data):
+        partial, peer_seen = self.partial, self.peer_seen
+        for ev in self.peers[sd].decode(data):
+            if isinstance(ev, WE.Message):
+                typ = "t" if isinstance(ev, WE.TextMessage) else "b"
+                d = ev.data.encode() if typ == "t" else bytes(ev.data)
+                if partial[sd] is None: partial[sd] = [typ, [b""]]
+                if partial[sd][0] != typ: partial[sd][0] = "mixed"
+                partial[sd][1][-1] += d
+                if ev.message_finished:
+                    peer_seen[sd].append(["m", partial[sd][0], [hx(x) for x in partial[sd][1]]]); partial[sd] = None
+                elif ev.frame_finished: partial[sd][1].append(b"")
+            elif isinstance(ev, WE.Ping): peer_seen[sd].append(["pi", hx(bytes(ev.payload))])
+            elif isinstance(ev, WE.Pong): peer_seen[sd].append(["po", hx(bytes(ev.payload))])
+            elif isinstance(ev, WE.CloseConnection):
+                peer_seen[sd].append(["cl", int(ev.code), hx((ev.reason or "").encode())])
+
+    def collect(self):
+        w = self.w
+        toks, burst = [], None
+        for t in w.trace[self.pos:]:
+            if t[0] == "hook":
+                if t[1] == "websocket_message":
+                    toks.append(f"H{self.hook_idx}"); self.hook_idx += 1
+                elif t[1] == "websocket_end": toks.append("E")
+            elif t[0] == "send":
+                sd = self.SIDE[t[1]]
+                self.peer_decode(sd, t[2])
+                esd, ev = self.sendevs.popleft()
+                assert esd == sd
+                if isinstance(ev, WE.Message):
+                    typ = "t" if isinstance(ev, WE.TextMessage) else "b"
+                    data = ev.data.encode() if typ == "t" else bytes(ev.data)
+                    if burst is None: burst = [sd, typ, []]
+                    if (burst[0], burst[1]) != (sd, typ): burst[2].append("mixed")
+                    burst[2].append(hx(data) + ("!" if ev.message_finished else "+"))
+                    if ev.message_finished:
+                        toks.append(f"M{burst[0]}.{burst[1]}." + ";".join(burst[2])); burst = None
+                elif isinstance(ev, WE.Ping): toks.append(f"PI{sd}.{hx(bytes(ev.payload))}")
+                elif isinstance(ev, WE.Pong): toks.append(f"PO{sd}.{hx(bytes(ev.payload))}")
+                elif isinstance(ev, WE.CloseConnection):
+                    r = "none" if ev.reason is None else hx(ev.reason.encode())
+                    toks.append(f"CL{sd}.{int(ev.code)}.{r}")
+            elif t[0] == "close":
+                toks.append("CC" + self.SIDE[t[1]])
+            elif t[0] == "ignored":
+                toks.append("IGN" + t[1])
+        if burst is not None: toks.append(f"M{burst[0]}.{burst[1]}." + ";".join(burst[2]) + ";unfinished")
+        if len(w.errors) > self.nerr:
+            toks.append("X"); self.nerr = len(w.errors)
+        self.pos = len(w.trace)
+        return " ".join(toks) if toks else "-"
+
+
+def flow_state(ws, lay, w):
+    msgs = [("t" if m.type == Opcode.TEXT else "b") + ("c" if m.from_client else "s") + ("i" if m.injected else "r")
+            + ("d" if m.dropped else "f") + ":" + hx(m.content) for m in ws.messages]
+    closed = "none"
+    if ws.closed_by_client is not None:
+        r = "none" if ws.close_reason is None else hx(ws.close_reason.encode())
+        closed = f"{'c' if ws.closed_by_client else 's'}.{int(ws.close_code)}.{r}"
+    buf = lambda b: "|".join(hx(x) for x in b)
+    return (f"msgs={','.join(msgs) if msgs else '-'} closed={closed} done={int(lay._handle_event == lay.done)} "
+            f"crashed={int(bool(w.errors))} bufc={buf(lay.client_ws.frame_buf)} bufs={buf(lay.server_ws.frame_buf)}")
+
+
+def shadow_tokens(shadow, sd, data, src_frames, cur):
+    """model input for one `receive_data(data)` of the layer's wsproto connection on side sd: the events a shadow
+    wsproto connection yields for the same bytes (+ the per-frame payloads of completed messages)"""
+    toks = []
+    if shadow[sd].state is WSState.CLOSED: return toks
+    shadow[sd].receive_data(data)
+    for ev in shadow[sd].events():
+        kind = None
+        if isinstance(ev, WE.CloseConnection):
+            kind = "e" if data is None else ("p" if shadow[sd].state is WSState.OPEN else "f")
+        toks.append(ev_token(ev, kind))
+        if isinstance(ev, WE.Message):
+            cur[sd][-1] += ev.data.encode() if isinstance(ev.data, str) else bytes(ev.data)
+            if ev.message_finished:
+                src_frames.append([hx(x) for x in cur[sd]]); cur[sd] = [b""]
+            elif ev.frame_finished: cur[sd].append(b"")
+    return toks
+
+
+REQUEST = (b"GET /chat HTTP/1.1\r\nHost: example.com\r\nConnection: Upgrade\r\nUpgrade: websocket\r\n"
+           b"Sec-WebSocket-Version: 13\r\nSec-WebSocket-Key: dGhlIHNhbXBsZSBub25jZQ==\r\n")
+RESPONSE = (b"HTTP/1.1 101 Switching Protocols\r\nUpgrade: websocket\r\nConnection: Upgrade\r\n"
+            b"Sec-WebSocket-Accept: s3pPLMBiTxaQ9kYGzzhZRbK+xOo=\r\n")
+EXT = b"Sec-WebSocket-Extensions: permessage-deflate\r\n"
+
+
+def virtual_script(case):
+    """an end-to-end case as the peers' script: frames piggybacked on the upgrade request / the 101 response first"""
+    if case["kind"] != "e2e": return case["script"]
+    pre = []
+    if case.get("cpiggy"): pre.append({"op": "frames", "from": "c", "frames": case["cpiggy"]})
+    if case.get("spiggy"): pre.append({"op": "frames", "from": "s", "frames": case["spiggy"]})
+    return pre + case["script"]
+
+
+def run_e2e(case):
+    """the real HttpLayer (transparent mode) performs the upgrade; WebSocket frames may share a TCP segment with the
+    upgrade request / the `101 Switching Protocols` response.  The model is fed what the layer's wsproto connections
+    actually received (logged at `receive_data`), the oracle judges against what the peers sent."""
+    from mitmproxy.proxy.layers import http as H
+    deflate = bool(case.get("deflate"))
+    policy = case.get("policy", [])
+    ctx = make_context()
+    ctx.server.address = ("example.com", 80)
+    top = H.HttpLayer(ctx, H.HTTPMode.transparent)
+    st = {"flow": None, "lay": None}
+    log = []     # ("data", side, bytes|None) | ("inject", side, text, hex) in the order the WebSocket layer got them
+
+    def on_hook(w, hook):
+        if hook.name == "websocket_start":
+            st["flow"] = hook.flow
+            for s in top.streams.values():
+                if isinstance(getattr(s, "child_layer", None), W.WebsocketLayer): st["lay"] = s.child_layer
+            lay = st["lay"]
+            rec.pos = len(w.trace)
+            for ws, sd in ((lay.client_ws, "c"), (lay.server_ws, "s")):
+                rec.wrap(ws, sd)
+                def rd(data, orig=ws.receive_data, sd=sd):
+                    log.append(("data", sd, data))
+                    return orig(data)
+                ws.receive_data = rd
+        elif hook.name == "websocket_message":
+            flow = st["flow"]
+            i = len(flow.websocket.messages) - 1
+            act = policy[i] if i < len(policy) else "k"
+            m = flow.websocket.messages[-1]
+            if act == "d": m.drop()
+            elif act != "k": m.content = unhx(act[1:])
+
+    w = World(top, ctx, on_hook=on_hook)
+    w.add_open_server(ctx.server)
+    rec = Recorder(w, deflate)
+    w.start()
+    peers = rec.peers
+    label = {"c": "client", "s": "server0"}
+    ext = EXT if deflate else b""
+    w.recv("client", REQUEST + ext + b"\r\n" + b"".join(peers["c"].frame(f) for f in case.get("cpiggy", [])))
+    data = RESPONSE + ext + b"\r\n" + b"".join(peers["s"].frame(f) for f in case.get("spiggy", []))
+    chunks, p = [], 0
+    for n in case.get("sseg", []):
+        if 0 < n and p + n < len(data): chunks.append(data[p:p + n]); p += n
+    chunks.append(data[p:])
+    for ch in chunks: w.recv("server0", ch)
+    if st["lay"] is None:
+        return {"steps": [], "lines": [], "state": "no-websocket", "src_frames": [], "peer": rec.peer_seen, "peer_partial": [],
+                "errors": ["upgrade did not reach the WebSocket layer"] + [e[0] + ": " + e[1] for e in w.errors][:1]}
+    for op in case["script"]:
+        sd = op.get("from", "c")
+        if op["op"] == "frames":
+            data = b"".join(peers[sd].frame(f) for f in op["frames"])
+            chunks, p = [], 0
+            for n in op.get("seg", []):
+                if 0 < n and p + n < len(data): chunks.append(data[p:p + n]); p += n
+            chunks.append(data[p:])
+            for ch in chunks: w.recv(label[sd], ch)
+        elif op["op"] == "eof":
+            w.peer_close(label[sd])
+        elif op["op"] == "inject":
+            typ = Opcode.TEXT if op["text"] else Opcode.BINARY
+            lay = st["lay"]
+            if not (lay._handle_event == lay.done):
+                log.append(("inject", sd, op["text"], op["content_hex"]))
+            w.inject(W.WebSocketMessageInjected(st["flow"], WebSocketMessage(typ, sd == "c", unhx(op["content_hex"]))))
+    shadow = {"c": Peer(ConnectionType.SERVER, deflate).conn, "s": Peer(ConnectionType.CLIENT, deflate).conn}
+    src_frames, cur, lines = [], {"c": [b""], "s": [b""]}, []
+    for ent in log:
+        if ent[0] == "data":
+            toks = shadow_tokens(shadow, ent[1], ent[2], src_frames, cur)
+            lines.append(f"data {ent[1]} " + " ".join(toks) if toks else f"data {ent[1]}")
+        else:
+            lines.append(f"inject {ent[1]} {'t' if ent[2] else 'b'} {ent[3]}")
+    return {"steps": [rec.collect()], "lines": lines, "state": flow_state(st["flow"].websocket, st["lay"], w),
+            "src_frames": src_frames, "peer": rec.peer_seen,
+            "peer_partial": [sd for sd in ("c", "s") if rec.partial[sd] is not None],
+            "errors": [e[0] + ": " + e[1] for e in w.errors][:2]}
+
+
 def run_layer(case):
     deflate = bool(case.get("deflate"))
     policy = case.get("policy", [])
@@ -106,83 +313,15 @@ def run_layer(case):
     w = World(lay, ctx, on_hook=on_hook)
     w.add_open_server(ctx.server)
     w.start()
-    peers = {"c": Peer(ConnectionType.CLIENT, deflate), "s": Peer(ConnectionType.SERVER, deflate)}
+    rec = Recorder(w, deflate)
+    peers = rec.peers
     shadow = {"c": Peer(ConnectionType.SERVER, deflate).conn, "s": Peer(ConnectionType.CLIENT, deflate).conn}
     label = {"c": "client", "s": "server0"}
-    side_of = {"client": "c", "server0": "s"}
     steps, lines = [], []       # per delivered chunk: rendered impl outputs / model protocol line
     src_frames, cur = [], {"c": [b""], "s": [b""]}   # per received message: payload per frame as a wsproto receiver sees it
-    pos = len(w.trace)
-    nerr = 0
-    hook_idx = [0]
-
-    # the events handed to wsproto (`WebsocketConnection.send`) are the model's output interface; the bytes
-    # of the matching SendData are decoded by the in-memory peers for the property oracle
-    from collections import deque
-    sendevs = deque()
-    peer_seen = {"c": [], "s": []}   # what each peer decodes: ["m", typ, [payload per frame]] | ["pi"/"po", hex] | ["cl", code, reason]
-    partial = {"c": None, "s": None}
-
-    def wrap(ws, sd):
-        orig = ws.send
-        def send(event):
-            data = orig(event)
-            sendevs.append((sd, event))
-            return data
-        ws.send = send
-    wrap(lay.client_ws, "c"); wrap(lay.server_ws, "s")
-
-    def peer_decode(sd, data):
-        for ev in peers[sd].decode(data):
-            if isinstance(ev, WE.Message):
-                typ = "t" if isinstance(ev, WE.TextMessage) else "b"
-                d = ev.data.encode() if typ == "t" else bytes(ev.data)
-                if partial[sd] is None: partial[sd] = [typ, [b""]]
-                if partial[sd][0] != typ: partial[sd][0] = "mixed"
-                partial[sd][1][-1] += d
-                if ev.message_finished:
-                    peer_seen[sd].append(["m", partial[sd][0], [hx(x) for x in partial[sd][1]]]); partial[sd] = None
-                elif ev.frame_finished: partial[sd][1].append(b"")
-            elif isinstance(ev, WE.Ping): peer_seen[sd].append(["pi", hx(bytes(ev.payload))])
-            elif isinstance(ev, WE.Pong): peer_seen[sd].append(["po", hx(bytes(ev.payload))])
-            elif isinstance(ev, WE.CloseConnection):
-                peer_seen[sd].append(["cl", int(ev.code), hx((ev.reason or "").encode())])
-
-    def collect():
-        nonlocal pos, nerr
-        toks, burst = [], None
-        for t in w.trace[pos:]:
-            if t[0] == "hook":
-                if t[1] == "websocket_message":
-                    toks.append(f"H{hook_idx[0]}"); hook_idx[0] += 1
-                elif t[1] == "websocket_end": toks.append("E")
-            elif t[0] == "send":
-                sd = side_of[t[1]]
-                peer_decode(sd, t[2])
-                esd, ev = sendevs.popleft()
-                assert esd == sd
-                if isinstance(ev, WE.Message):
-                    typ = "t" if isinstance(ev, WE.TextMessage) else "b"
-                    data = ev.data.encode() if typ == "t" else bytes(ev.data)
-                    if burst is None: burst = [sd, typ, []]
-                    if (burst[0], burst[1]) != (sd, typ): burst[2].append("mixed")
-                    burst[2].append(hx(data) + ("!" if ev.message_finished else "+"))
-                    if ev.message_finished:
-                        toks.append(f"M{burst[0]}.{burst[1]}." + ";".join(burst[2])); burst = None
-                elif isinstance(ev, WE.Ping): toks.append(f"PI{sd}.{hx(bytes(ev.payload))}")
-                elif isinstance(ev, WE.Pong): toks.append(f"PO{sd}.{hx(bytes(ev.payload))}")
-                elif isinstance(ev, WE.CloseConnection):
-                    r = "none" if ev.reason is None else hx(ev.reason.encode())
-                    toks.append(f"CL{sd}.{int(ev.code)}.{r}")
-            elif t[0] == "close":
-                toks.append("CC" + side_of[t[1]])
-            elif t[0] == "ignored":
-                toks.append("IGN" + t[1])
-        if burst is not None: toks.append(f"M{burst[0]}.{burst[1]}." + ";".join(burst[2]) + ";unfinished")
-        if len(w.errors) > nerr:
-            toks.append("X"); nerr = len(w.errors)
-        pos = len(w.trace)
-        return " ".join(toks) if toks else "-"
+    rec.wrap(lay.client_ws, "c"); rec.wrap(lay.server_ws, "s")
+    collect = rec.collect
+    peer_seen, partial = rec.peer_seen, rec.partial
 
     for op in case["script"]:
         sd = op.get("from", "c")
@@ -244,7 +383,7 @@ def spec_of(case):
     items = []          # ("msg", from, text, [frames], injected) | ("ping"/"pong", from, payload)
     close = None
     weird = False       # malformed frame sequences: outside the oracle (wsproto answers with a protocol error)
-    for op in case["script"]:
+    for op in virtual_script(case):
         if close is not None:
             weird = weird or op["op"] != "eof"
             continue
@@ -313,7 +452,10 @@ class Check(PropertyCheck):
             "with 1-4 byte characters straddling multiples of FRAGMENT_SIZE and original fragment boundaries, sizes 0..3*FS+3, "
             "same-length and length-changing contents, invalid UTF-8; layer: scripts of raw frames both ways (fragmented, cut "
             "inside characters, random TCP segmentation, +-deflate), pings/pongs, injections (also between fragments), close/eof, "
-            "addon policy per message keep/same-length edit/length-changing edit/drop. distinct = distinct case; non-trivial = "
+            "addon policy per message keep/same-length edit/length-changing edit/drop; e2e: the same through the real HttpLayer "
+            "(transparent mode) upgrade, with WebSocket frames sharing the TCP segment of the 101 response / the upgrade "
+            "request, payloads and segments ending in CR, LF, CRLF, 0x00, 0xff, ..., every cut of these short streams "
+            "(model fed with what the layer's wsproto connections received, oracle judges against what the peers sent). distinct = distinct case; non-trivial = "
             "at least one frame/fragment.")
     budget = {"quick": 5200, "thorough": 120000}
     time_budget = {"quick": 15, "thorough": 420}
@@ -321,7 +463,9 @@ class Check(PropertyCheck):
                     "mitmproxy.proxy.layers.websocket:Fragmentizer.msg", "mitmproxy.proxy.layers.websocket:Fragmentizer.__init__",
                     "mitmproxy.proxy.layers.websocket:WebsocketLayer.relay_messages", "mitmproxy.proxy.layers.websocket:WebsocketLayer.start",
                     "mitmproxy.proxy.layers.websocket:WebsocketLayer.done", "mitmproxy.proxy.layers.websocket:WebsocketConnection",
-                    "mitmproxy.websocket:WebSocketMessage", "mitmproxy.websocket:WebSocketData"]
+                    "mitmproxy.websocket:WebSocketMessage", "mitmproxy.websocket:WebSocketData",
+                    "mitmproxy.proxy.layers.http._http1:Http1Connection.make_pipe",
+                    "mitmproxy.proxy.layers.http._http1:Http1Connection.passthrough"]
     trusted_base = ["wsproto 1.3 frame codec / permessage-deflate / incremental UTF-8 decoder (model parameter; exercised by the in-memory peers)",
                     "CPython bytes.decode('utf-8', 'replace') as the primitive the `san` automaton transcribes (tied differentially)"]
     parallel = True
@@ -501,6 +645,56 @@ class Check(PropertyCheck):
                           "frames": [rng.pick([{"t": "c", "p_hex": "00"}, {"t": "t", "p_hex": "ff"}, {"t": "cl", "p_hex": "00"}])], "seg": []})
         return {"kind": "layer", "deflate": int(rng.chance(0.4)), "script": script, "policy": policy}
 
+    TAILS = [b"\r", b"\n", b"\r\n", b"\n\r\n\n", b"\x00", b"\xff", b"a", b""]
+
+    def _e2e_small(self, tier):
+        """frames sharing a TCP segment with the `101` response / the upgrade request, payloads ending in every byte
+        class, and every cut (quick: the cuts around the header end and inside the frames) of these short streams"""
+        hdr = len(RESPONSE) + 2
+        for tail in self.TAILS:
+            for text in (1, 0):
+                if text and not valid_utf8(tail): continue
+                body = (b"a\nb" if tail else b"") + tail
+                fr1 = {"t": "t" if text else "b", "fin": 1, "p_hex": hx(body)}
+                fr2 = {"t": "b", "fin": 1, "p_hex": hx(b"\x01" + tail)}
+                follow = [{"op": "frames", "from": "s", "frames": [{"t": "t", "fin": 1, "p_hex": hx(b"next")}], "seg": []}]
+                for spiggy in ([fr1], [fr1, fr2], [{"t": "pi", "p_hex": hx(tail)}, fr1]):
+                    yield {"kind": "e2e", "deflate": 0, "cpiggy": [], "spiggy": spiggy, "sseg": [], "script": follow, "policy": []}
+                yield {"kind": "e2e", "deflate": 0, "cpiggy": [fr1], "spiggy": [], "sseg": [], "policy": [],
+                       "script": [{"op": "frames", "from": "c", "frames": [{"t": "t", "fin": 1, "p_hex": hx(b"next")}], "seg": []}]}
+                yield {"kind": "e2e", "deflate": 1, "cpiggy": [], "spiggy": [fr1, fr2], "sseg": [], "script": follow, "policy": []}
+                total = hdr + 2 + len(body) + 2 + 1 + len(tail)
+                cuts = range(1, total) if tier == "thorough" else [c for c in range(1, total) if c >= hdr - 3 or c % 29 == 0]
+                if tail in (b"\r", b"\n", b"\r\n", b"\xff"):
+                    for c in cuts:
+                        yield {"kind": "e2e", "deflate": 0, "cpiggy": [], "spiggy": [fr1, fr2], "sseg": [c], "script": follow, "policy": []}
+
+    def _e2e_case(self, rng):
+        base = self._layer_case(rng)
+        def piggy():
+            out = []
+            for _ in range(rng.randint(1, 3)):
+                q = rng.random()
+                tail = rng.pick(self.TAILS)
+                if q < 0.75:
+                    text = rng.chance(0.5) and valid_utf8(tail)
+                    body = (self._text(rng, rng.randint(0, 20)) if text else rng.bytes_(rng.randint(0, 20))) + tail
+                    out.extend(self._split_frames(rng, text, body))
+                else:
+                    out.append({"t": rng.pick(["pi", "po"]), "p_hex": hx(rng.bytes_(rng.randint(0, 4)) + tail)})
+            return out
+        side = rng.pick(["s", "s", "c"])     # messages are piggybacked in one direction only (the recording order of
+        sp = piggy() if side == "s" else []  # simultaneous early data of both directions is not part of the statement)
+        cp = piggy() if side == "c" else []
+        npre = sum(1 for f in sp + cp if f["t"] in ("t", "b", "c") and f.get("fin", 1))
+        total = len(RESPONSE) + 2 + sum(len(unhx(f.get("p_hex", "-"))) + 4 for f in sp)
+        sseg = [rng.randint(1, total) for _ in range(rng.pick([0, 0, 0, 1, 2]))]
+        acts = []
+        for f in sp + cp:
+            if f["t"] in ("t", "b", "c") and f.get("fin", 1): acts.append("k" if rng.chance(0.8) else "d")
+        return {"kind": "e2e", "deflate": base["deflate"], "cpiggy": cp, "spiggy": sp, "sseg": sorted(sseg) and sseg,
+                "script": base["script"], "policy": acts + base["policy"]}
+
     def generate(self, rng, tier):
         # small-scope enumeration of the UTF-8 automaton: every 1- and a slice of 2/3-byte strings over the boundary bytes
         for a in range(256):
@@ -511,11 +705,14 @@ class Check(PropertyCheck):
         if tier == "thorough":
             for t in itertools.product(SOUP, repeat=3):
                 yield {"kind": "san", "data_hex": hx(bytes(t))}
+        yield from self._e2e_small(tier)
         n = 0
         while True:
             n += 1
             r = rng.random()
-            if r < 0.12:
+            if r < 0.02:
+                yield self._e2e_case(rng)
+            elif r < 0.12:
                 yield {"kind": "san", "data_hex": hx(bytes(rng.pick(SOUP) if rng.chance(0.8) else rng.getrandbits(8) for _ in range(rng.randint(1, 24))))}
             elif r < 0.955:
                 yield self._frag_case(rng)
@@ -538,7 +735,7 @@ class Check(PropertyCheck):
                     assert isinstance(m, WE.BytesMessage)
                     frames.append([hx(bytes(m.data)), int(m.message_finished)])
             return {"frames": frames}
-        obs = run_layer(case)
+        obs = run_e2e(case) if k == "e2e" else run_layer(case)
         self._last = (case, obs.pop("lines"))
         return obs
 
@@ -667,10 +864,14 @@ class Check(PropertyCheck):
         # layer cases: the model consumes the events a shadow wsproto connection yields for the same bytes;
         # impl() has just computed them for this very case (same process), otherwise re-run
         last = getattr(self, "_last", None)
-        lines = last[1] if last is not None and last[0] is case else run_layer(case)["lines"]
+        lines = last[1] if last is not None and last[0] is case else (run_e2e if k == "e2e" else run_layer)(case)["lines"]
         return ["reset", "policy " + " ".join(case.get("policy", []))] + lines + ["state"]
 
     def model_obs(self, case, replies):
+        if case["kind"] == "e2e":
+            # whole-run comparison: the order of the events is the one the WebSocket layer actually saw
+            toks = [t for r in replies[2:-1] if r != "-" for t in r.split(" ")]
+            return {"steps": [" ".join(toks) if toks else "-"], "state": replies[-1]}
         if case["kind"] == "layer":
             out = list(replies[2:-1])
             return {"steps": out, "state": replies[-1]}
@@ -686,7 +887,7 @@ class Check(PropertyCheck):
         k = case["kind"]
         if k == "san": return ("san", case["data_hex"])
         if k == "frag": return ("frag", case["text"], tuple(case["frags_hex"]), case["content_hex"])
-        return ("layer", str(case["script"]), str(case["policy"]), case["deflate"])
+        return (k, str(virtual_script(case)), str(case.get("sseg")), str(case["policy"]), case["deflate"])
 
     def branches(self, case, obs):
         k = case["kind"]
@@ -703,11 +904,18 @@ class Check(PropertyCheck):
                     lens = [len(unhx(p)) for p, _ in obs["frames"]]
                     if len(content) != sum(map(len, frags)) and any(l not in (FS, 0) for l in lens[:-1]): out.append("frag:cut-moved-back")
             return out
-        out = ["layer:deflate" if case["deflate"] else "layer:plain"]
-        for op in case["script"]: out.append("layer:op:" + op["op"])
-        for a in case["policy"]: out.append("layer:policy:" + a[0])
-        if obs["errors"]: out.append("layer:crash")
-        if "closed=none" not in obs["state"]: out.append("layer:closed")
+        out = [f"{k}:deflate" if case["deflate"] else f"{k}:plain"]
+        for op in case["script"]: out.append(f"{k}:op:" + op["op"])
+        for a in case["policy"]: out.append(f"{k}:policy:" + a[0])
+        if k == "e2e":
+            if case.get("spiggy"): out.append("e2e:frames-in-101-segment")
+            if case.get("cpiggy"): out.append("e2e:frames-behind-upgrade-request")
+            fr = (case.get("spiggy") or [{}])[-1]
+            tail = unhx(fr.get("p_hex", "-"))[-1:] if fr else b""
+            if case.get("spiggy") and not case.get("sseg"):
+                out.append("e2e:101-segment-ends-" + ("crlf" if tail in (b"\r", b"\n") else "other"))
+        if obs["errors"]: out.append(f"{k}:crash")
+        if "closed=none" not in obs["state"]: out.append(f"{k}:closed")
         return sorted(set(out))
 
     def known(self, case, obs, failure):
@@ -725,8 +933,11 @@ class Check(PropertyCheck):
             yield self._frag_case(rng)
         for _ in range(100):
             yield self._layer_case(rng)
+        for _ in range(100):
+            yield self._e2e_case(rng)
 
     def exhaustive(self, tier):
+        yield from self._e2e_small("thorough")
         # every (text) fragmentation of short two-character strings against every pair of original lengths
         for s in ("aé", "é€", "€😀", "😀a", "ééé"):
             b = s.encode()
